@@ -149,7 +149,7 @@ def nla_stage(chk, hx, rng, n, wd, oracle, stats):
         stats['nla_systems'] += 1
         stats['nla_marked'] += d['m']
         bad = False
-        for nm in d['names']:
+        for nm in d['names'] + (d['block2'][1] if d.get('block2') else []):
             t = real['vars'].get(('c', nm), (None,))[0]
             exp_t = 'external' if nm in d['ext'] else 'algebraic'
             if t != exp_t:
@@ -288,7 +288,7 @@ def run(chk, replay=None):
             declared = {q.idx: set() for q in qs}
             for q in marked:
                 ext += ['c%d' % q.home, q.members[q.home][0]]
-                ok_deps = [p for p in qs if p.kind != 'voi' and p.idx != q.idx and q.idx not in closure(p.idx) and p not in marked]
+                ok_deps = [p for p in qs if p.kind != 'voi' and p.idx != q.idx and q.idx not in closure(p.idx) and (p not in marked or rng.random() < 0.7)]
                 for p in rng.sample(ok_deps, min(len(ok_deps), rng.randint(0, 2))):
                     ext += ['+c%d' % p.home, p.members[p.home][0]]
                     declared[q.idx].add(p.idx); deps[q.idx].add(p.idx)
@@ -332,15 +332,23 @@ def run(chk, replay=None):
                 if not t:
                     continue
                 if t[0] == 'PHASE':
-                    phase = t[1]
+                    phase = t[1]; called_in_phase = set()
                 elif t[0] == 'BADCALL':
                     oracle.append(('the callback is invoked for index %s, which is not an external variable' % t[1], text, ext))
                 elif t[0] == 'CALL':
                     stats['callback_calls'] += 1
                     k = int(t[1]); vals = [float(x) for x in t[2:]]
                     q = idx2q.get(k)
+                    called_in_phase.add(k)
                     if q is None:
                         continue
+                    if phase in ('rates', 'variables'):
+                        # a declared dependency that is itself external must have been obtained through the callback first
+                        for j in declared[q[2].idx]:
+                            if qs[j] in marked:
+                                dj = [i for i, e in idx2q.items() if e is not None and e[2].idx == j]
+                                if dj and dj[0] not in called_in_phase:
+                                    oracle.append(('the callback for v%d is called in %s before the callback for v%d, an external variable it is declared to depend on' % (q[2].idx, phase, j), text, ext)); break
                     if phase in ('rates', 'variables'):
                         for j in declared[q[2].idx]:
                             dj = [i for i, e in idx2q.items() if e is not None and e[2].idx == j]
